@@ -507,8 +507,9 @@ func c19Client(rng *rand.Rand, id string, stats *c19Stats) string {
 		}(k)
 	}
 	if rng.Intn(3) == 0 {
+		closeAfter := time.Duration(rng.Intn(20000)) * time.Microsecond
 		go func() {
-			time.Sleep(time.Duration(rng.Intn(20000)) * time.Microsecond)
+			time.Sleep(closeAfter)
 			c.Close()
 			stats.closes.Add(1)
 		}()
